@@ -826,7 +826,10 @@ func simplifyCallBuildingTypedQuery(symbol string, call b6.CallExpression) (b6.A
 func simplifyLambda(expression b6.Expression, functions SymbolArgCounts) b6.Expression {
 	lambda := expression.AnyExpression.(b6.LambdaExpression)
 	lambda.Expression = Simplify(lambda.Expression, functions)
-	// '{a -> area a}' is semantically equivalent to 'area'
+	// '{a -> area a}' is semantically equivalent to 'area', and
+	// '{f -> tag f "name"}' to 'tag "name"', as long as every argument of
+	// the lambda is passed on, in order, as the leading arguments of a
+	// complete call of a global function, and isn't used anywhere else.
 	if call, ok := lambda.Expression.AnyExpression.(b6.CallExpression); ok && len(lambda.Args) > 0 {
 		i := 0
 		for i < len(lambda.Args) && i < len(call.Args) {
@@ -839,7 +842,7 @@ func simplifyLambda(expression b6.Expression, functions SymbolArgCounts) b6.Expr
 			}
 			i++
 		}
-		if i > 0 {
+		if i == len(lambda.Args) && canDropLambdaArgs(lambda.Args, call, functions) {
 			if i == len(call.Args) {
 				return Simplify(call.Function, functions)
 			}
@@ -852,6 +855,61 @@ func simplifyLambda(expression b6.Expression, functions SymbolArgCounts) b6.Expr
 		}
 	}
 	return expression
+}
+
+// canDropLambdaArgs returns true if a lambda with the given args, whose
+// body is call with those args as its leading arguments, behaves like
+// call's function partially applied to the remaining arguments.
+func canDropLambdaArgs(args []string, call b6.CallExpression, functions SymbolArgCounts) bool {
+	symbol, ok := call.Function.AnyExpression.(b6.SymbolExpression)
+	if !ok {
+		return false
+	}
+	if n, ok := functions.ArgCount(symbol); !ok || n != len(call.Args) {
+		return false
+	}
+	if v, _ := functions.IsVariadic(symbol); v {
+		return false
+	}
+	for i := range args {
+		for j := 0; j < i; j++ {
+			if args[i] == args[j] {
+				return false // Both refer to the first
+			}
+		}
+	}
+	for _, remaining := range call.Args[len(args):] {
+		// The remaining arguments would be evaluated once, rather than
+		// on each call, and outside the scope of the lambda's arguments.
+		if _, ok := remaining.AnyExpression.(b6.CallExpression); ok {
+			return false
+		}
+		for _, arg := range args {
+			if mentionsSymbol(remaining, arg) {
+				return false
+			}
+		}
+	}
+	return true
+}
+
+func mentionsSymbol(expression b6.Expression, symbol string) bool {
+	switch e := expression.AnyExpression.(type) {
+	case b6.SymbolExpression:
+		return e.String() == symbol
+	case b6.CallExpression:
+		if mentionsSymbol(e.Function, symbol) {
+			return true
+		}
+		for _, arg := range e.Args {
+			if mentionsSymbol(arg, symbol) {
+				return true
+			}
+		}
+	case b6.LambdaExpression:
+		return mentionsSymbol(e.Expression, symbol)
+	}
+	return false
 }
 
 func simplifyQuery(query b6.Query) b6.Query {
